@@ -658,6 +658,12 @@ func (s *Store[K, V]) sinkWrite(item WriteBufItem[K, V]) {
 	// ignore removed entries, except code NEW
 	// which will reset removed flag
 	if entry.flag.IsRemoved() && item.code != NEW {
+		// A REMOVE event means Delete took the entry's map slot itself, so the
+		// eviction/expiry that removed the entry from the policy in the meantime
+		// could not notify (its own map removal failed): report the Delete here.
+		if item.code == REMOVE {
+			_ = s.removalCallback(s.kvBuilder(entry), REMOVED)
+		}
 		return
 	}
 
